@@ -12,12 +12,13 @@ FirstBad(exp, got, i) == IF i > Len(exp) \/ i > Len(got) THEN i
 Verdict(c) ==
   LET A == Activation(c.prog, c.reflog) IN
   IF A.comp.c = "drift" \/ A.pos # A.loglen + 1 THEN <<"Drift", IF A.comp.c = "drift" THEN A.comp.why ELSE "log not consumed", "">>
-  ELSE LET strict == SelectSeq(A.out, LAMBDA x : x[3] # "superseded")       \* what the property owes
+  ELSE LET all == IF c.only = "" THEN A.out ELSE SelectSeq(A.out, LAMBDA x : x[1] = c.only)   \* one meta-variable probed alone
+           strict == SelectSeq(all, LAMBDA x : x[3] # "superseded")       \* what the property owes
            nofall == SelectSeq(strict, LAMBDA x : x[3] # "falloff")
-           withsup == SelectSeq(A.out, LAMBDA x : x[3] # "falloff")
+           withsup == SelectSeq(all, LAMBDA x : x[3] # "falloff")
        IN IF Same(strict, c.merged) THEN <<"ok", "", "">>
           ELSE IF Same(nofall, c.merged) THEN <<"FallOffValue", "", "">>
-          ELSE IF Same(A.out, c.merged) \/ Same(withsup, c.merged) THEN <<"SupersededReturnValue", "", "">>
+          ELSE IF Same(all, c.merged) \/ Same(withsup, c.merged) THEN <<"SupersededReturnValue", "", "">>
           ELSE LET k == FirstBad(nofall, c.merged, 1)
                IN <<"MetaEvents", IF k <= Len(nofall) THEN nofall[k][1] ELSE "end", IF k <= Len(c.merged) THEN c.merged[k][1] ELSE "end">>
 Init == cid \in 1..Len(Cases) /\ done = FALSE
